@@ -5,7 +5,7 @@ from __future__ import annotations
 import ast
 from typing import Dict, List, Optional, Set, Tuple
 
-from ..astutil import arg_of, call_name, calls, guards, kwarg, last_attr, stmt_key, txt, walk_local
+from ..astutil import arg_of, call_name, calls, enclosing_loops, guards, kwarg, last_attr, stmt_key, txt, walk_local
 from ..cfg import CFG
 from ..flow import bound_from, provenance
 from ..index import AnalysisError, ClassInfo, _walk_functions, dotted
@@ -362,6 +362,13 @@ def r11_5(ctx: Ctx) -> None:
                form=INPUT_ONLY.get(lst, "emptied or filtered" if ok else "not touched"))
 
 
+def _anc11(node: ast.AST):
+    cur = getattr(node, "_parent", None)
+    while cur is not None:
+        yield cur
+        cur = getattr(cur, "_parent", None)
+
+
 def r11_6(ctx: Ctx) -> None:
     """ sibling agreement of the run-time and the reuse-time filter of hmmer hits: results saved under lenient thresholds
         and refiltered on reuse must be the results a fresh run with the stricter thresholds gives, so both filters keep
@@ -371,27 +378,42 @@ def r11_6(ctx: Ctx) -> None:
     build = ctx.fn(hm, "build_hits")
     refilter = ctx.fn(hm, "HmmerResults.refilter")
 
-    def kept(func: ast.AST, negate: bool) -> Dict[str, str]:
-        """ quantity -> operator under which a hit is kept """
-        out: Dict[str, str] = {}
-        flip = {"<": ">=", "<=": ">", ">": "<=", ">=": "<"}
+    from ..flow import literals, path_facts
+    swap = {"<": ">", "<=": ">=", ">": "<", ">=": "<="}
+
+    def kept(func: ast.AST) -> Dict[str, str]:
+        """ quantity -> operator (hit quantity on the left) under which a hit is kept: read off the conditions of the
+            place where a hit is kept - the `if` of a comprehension, or the path to an append inside the loop over hits """
+        facts: List[Tuple[ast.AST, bool]] = []
         for node in ast.walk(func):
-            if not isinstance(node, ast.Compare) or len(node.ops) != 1:
-                continue
-            cmp_ = effective_compare(node, True)
-            if cmp_ is None or cmp_[1] not in flip:
+            if isinstance(node, (ast.ListComp, ast.GeneratorExp)) and any("evalue" in txt(c) for g in node.generators for c in g.ifs):
+                for g in node.generators:
+                    for cond in g.ifs:
+                        facts += literals(cond, True)
+        if not facts:
+            cfg = CFG(func)
+            for call in calls(func):
+                if last_attr(call) == "append" and enclosing_loops(call, stop=func):
+                    stmt = next(a for a in _anc11(call) if isinstance(a, ast.stmt))
+                    found = [(e, t) for e, t in path_facts(cfg, stmt) if "evalue" in txt(e) or "score" in txt(e)]
+                    if any("evalue" in txt(e) for e, _ in found):
+                        for e, t in found:
+                            facts += literals(e, t)
+        out: Dict[str, str] = {}
+        for expr, truth in facts:
+            cmp_ = effective_compare(expr, truth)
+            if cmp_ is None or cmp_[1] not in swap:
                 continue
             left, op, right = cmp_
+            if isinstance(right, ast.Attribute) and isinstance(left, ast.Name):
+                left, op, right = right, swap[op], left
             for quantity, names in (("score", ("score", "bitscore")), ("evalue", ("evalue",))):
-                if isinstance(left, ast.Attribute) and left.attr in names and isinstance(right, ast.Name) \
-                        and ("min_score" in right.id or "max_evalue" in right.id):
-                    out[quantity] = flip[op] if negate else op
+                if isinstance(left, ast.Attribute) and left.attr in names and not txt(left).startswith("self.") \
+                        and isinstance(right, ast.Name) and ("min_score" in right.id or "max_evalue" in right.id):
+                    out[quantity] = op
         return out
-    fresh = kept(build, negate=True)       # build_hits *skips* under the comparison
-    reuse = {}
-    for node in ast.walk(refilter):
-        if isinstance(node, ast.ListComp):
-            reuse = kept(node, negate=False)   # refilter *keeps* under the comparison
+    fresh = kept(build)
+    reuse = kept(refilter)
     if set(fresh) != {"score", "evalue"} or set(reuse) != {"score", "evalue"}:
         raise AnalysisError(f"R11.6: threshold comparisons not found (run-time {fresh}, reuse {reuse})")
     for quantity in ("score", "evalue"):
